@@ -206,4 +206,4 @@ func (t *twoInst) Fingerprint() string {
 var fpOptTwo = &core.FPOptions{SkipTypes: []string{"*pools.KVStore", "*pools.nodeStore"}, SkipFields: fpOpt.SkipFields}
 
 func (t *twoInst) Probe() map[string]any { return nil }
-func (t *twoInst) Close()                 { t.cancel() }
+func (t *twoInst) Close()                { t.cancel() }
